@@ -25,10 +25,12 @@ def sh(cmd, cwd=None, timeout=3600):
 def main():
     pid, n = sys.argv[1], sys.argv[2]
     jobs = sys.argv[3] if len(sys.argv) > 3 else "4"
-    src = "/tmp/wt_%s/seeded_out" % pid
+    prefix = sys.argv[4] if len(sys.argv) > 4 else "/tmp/wt_"       # round 2 of sub-agents works in /tmp/w2_CXX
+    outn = sys.argv[5] if len(sys.argv) > 5 else n                  # ... and is stored as CXX-m3 / CXX-m4
+    src = "%s%s/seeded_out" % (prefix, pid)
     patch = os.path.join(src, "mut%s.diff" % n)
     demo = os.path.join(src, "demo%s.sh" % n)
-    name = "%s-m%s" % (pid, n)
+    name = "%s-m%s" % (pid, outn)
     res = {"id": name, "property": pid, "steps": {}}
     wt = "/tmp/vet_%s" % name
     clean = "/tmp/vet_clean_%s" % name
